@@ -21,7 +21,9 @@ COQ = os.path.join(ROOT, "coq")
 THEORIES = os.path.join(COQ, "theories")
 REPO = os.environ.get("VERIF_REPO", "/repo")
 REPO_SRC = os.path.join(REPO, "src")
-EVID = os.path.join(ROOT, "evidence")
+# evidence/ describes /repo itself; a run against a scratch copy (VERIF_REPO, used to try seeded changes) writes elsewhere
+EVID = os.path.join(ROOT, "evidence") if "VERIF_REPO" not in os.environ else \
+    os.path.join(ROOT, "build", "scratch-evidence", re.sub(r"[^A-Za-z0-9]+", "_", os.environ["VERIF_REPO"]).strip("_"))
 REPLAYS = os.path.join(EVID, "replays")
 PY = "/venv/bin/python"
 LOGICAL = "UJ"
